@@ -45,6 +45,8 @@ type Select struct {
 	Monitors  []string
 	Layouts   []sim.Layout
 	MaxPoints int // upper bound on fault points per case (0 = all)
+	Thorough  bool
+	Kinds     []string // kinds of fault to realise (empty = all)
 }
 
 func (s Select) has(m string) bool {
@@ -537,6 +539,7 @@ func (w *world) undo() {
 
 // Run sweeps every selected case.
 func Run(rep *core.Report, args *core.Args, sel Select) {
+	sel.Thorough = !args.Quick()
 	cases := Cases(rep, args)
 	layouts := sel.Layouts
 	if len(layouts) == 0 {
@@ -558,6 +561,9 @@ func Run(rep *core.Report, args *core.Args, sel Select) {
 	n := 0
 	for _, c := range cases {
 		if !want[c.Op] || c.Op == "set_cluster_id" {
+			continue
+		}
+		if len(sel.Kinds) > 0 && !inList(sel.Kinds, c.Kind) {
 			continue
 		}
 		for _, v := range variants(c.Op) {
@@ -971,3 +977,15 @@ func (w *world) checkRestart(rep *core.Report, v func(group, monitor, what strin
 		}
 	}
 }
+
+func inList(l []string, x string) bool {
+	for _, y := range l {
+		if y == x {
+			return true
+		}
+	}
+	return false
+}
+
+// LocalKinds are the kinds of fault that happen on the node itself (no broken stream).
+var LocalKinds = []string{"error", "unreadable", "unwritable", "notify"}
